@@ -18,7 +18,76 @@ pub struct PropSpec {
     pub expected_probes: &'static [&'static str],
 }
 
-const SPECS: &[PropSpec] = &[PropSpec {
+const SPECS: &[PropSpec] = &[
+    PropSpec {
+        id: "C01",
+        engine: "routersim",
+        level: "exploration",
+        runs_quick: 150000,
+        runs_thorough: 3000000,
+        rule: "one run = seeded swarm configuration (1-5 clients, topic/filter pools, QoS mixes, router segment/outgoing limits, ack pacing) + seeded interleaving of client actions, link steps and real run_inner calls with link steps injected at yield points; distinct = trace hash; non-trivial = at least one forward was delivered and at least two connections were registered",
+        state_measure: "per router step: hash over connections of (tracker status, scheduled?, #tracked, #parked, inflight bucket, outgoing-buffer bucket, incoming bucket) + groups + graveyard size + channel bucket",
+        real: &["rumqttd::Router (run_inner, events, consume, handle_device_payload, handle_new_connection, handle_disconnection, forward_device_data, append_to_commitlog)", "rumqttd router/{scheduler,logs,iobufs,waiters,graveyard,shared_subs}", "rumqttd segments::CommitLog", "rumqttd::local::{LinkBuilder,LinkTx,LinkRx} buffer and channel primitives", "flume channels, parking_lot mutexes"],
+        stubbed: &["per-connection task remote()/RemoteLink::start replaced by a link actor performing the same buffer/channel operations", "MQTT codecs and sockets (not involved)", "clients: protocol-obeying models"],
+        assumptions: &[
+            "single-threaded interleaving at buffer/channel granularity is equivalent to the threaded broker (DESIGN.md 1.1)",
+            "release semantics: debug assertions off, overflow checks off",
+            "the reference broker model (spec.rs) and its matcher are trusted",
+        ],
+        expected_probes: &["yield_point_step", "unschedule_seen", "same_batch_pub_sub", "burst", "mid_run_quiescence"],
+    },
+    PropSpec {
+        id: "C06",
+        engine: "routersim",
+        level: "exploration",
+        runs_quick: 150000,
+        runs_thorough: 3000000,
+        rule: "as C01 plus PINGREQ, multi-filter SUBSCRIBE/UNSUBSCRIBE, UNSUBSCRIBE of unknown filters; every drained DeviceAck is compared with a per-connection ledger in request order",
+        state_measure: "per router step: hash over connections of (tracker status, scheduled?, #tracked, #parked, inflight bucket, outgoing-buffer bucket, incoming bucket) + groups + graveyard size + channel bucket",
+        real: &["rumqttd::Router (run_inner, events, consume, handle_device_payload, handle_new_connection, handle_disconnection, forward_device_data, append_to_commitlog)", "rumqttd router/{scheduler,logs,iobufs,waiters,graveyard,shared_subs}", "rumqttd segments::CommitLog", "rumqttd::local::{LinkBuilder,LinkTx,LinkRx} buffer and channel primitives", "flume channels, parking_lot mutexes"],
+        stubbed: &["per-connection task remote()/RemoteLink::start replaced by a link actor performing the same buffer/channel operations", "MQTT codecs and sockets (not involved)", "clients: protocol-obeying models"],
+        assumptions: &[
+            "single-threaded interleaving at buffer/channel granularity is equivalent to the threaded broker (DESIGN.md 1.1)",
+            "release semantics: debug assertions off, overflow checks off",
+            "the reference broker model (spec.rs) and its matcher are trusted",
+        ],
+        expected_probes: &["yield_point_step", "batch_10_plus"],
+    },
+    PropSpec {
+        id: "C09",
+        engine: "routersim",
+        level: "exploration",
+        runs_quick: 100000,
+        runs_thorough: 2000000,
+        rule: "backlogs and bursts (up to 199 per batch) towards 1-3 subscribers at QoS 0-2 with ack pacing eager/lazy/burst/withheld; window invariants on every forward, completeness at quiescence with no stimulus after the last ack",
+        state_measure: "per router step: hash over connections of (tracker status, scheduled?, #tracked, #parked, inflight bucket, outgoing-buffer bucket, incoming bucket) + groups + graveyard size + channel bucket",
+        real: &["rumqttd::Router (run_inner, events, consume, handle_device_payload, handle_new_connection, handle_disconnection, forward_device_data, append_to_commitlog)", "rumqttd router/{scheduler,logs,iobufs,waiters,graveyard,shared_subs}", "rumqttd segments::CommitLog", "rumqttd::local::{LinkBuilder,LinkTx,LinkRx} buffer and channel primitives", "flume channels, parking_lot mutexes"],
+        stubbed: &["per-connection task remote()/RemoteLink::start replaced by a link actor performing the same buffer/channel operations", "MQTT codecs and sockets (not involved)", "clients: protocol-obeying models"],
+        assumptions: &[
+            "single-threaded interleaving at buffer/channel granularity is equivalent to the threaded broker (DESIGN.md 1.1)",
+            "release semantics: debug assertions off, overflow checks off",
+            "the reference broker model (spec.rs) and its matcher are trusted",
+        ],
+        expected_probes: &["window_full_100", "unschedule_seen", "big_burst"],
+    },
+    PropSpec {
+        id: "C03",
+        engine: "routersim",
+        level: "exploration",
+        runs_quick: 150000,
+        runs_thorough: 3000000,
+        rule: "rogue and well-behaved clients, stale events, takeover, persistent sessions, shared groups; no router step may unwind or return an error, probe client must be served afterwards",
+        state_measure: "per router step: hash over connections of (tracker status, scheduled?, #tracked, #parked, inflight bucket, outgoing-buffer bucket, incoming bucket) + groups + graveyard size + channel bucket",
+        real: &["rumqttd::Router (run_inner, events, consume, handle_device_payload, handle_new_connection, handle_disconnection, forward_device_data, append_to_commitlog)", "rumqttd router/{scheduler,logs,iobufs,waiters,graveyard,shared_subs}", "rumqttd segments::CommitLog", "rumqttd::local::{LinkBuilder,LinkTx,LinkRx} buffer and channel primitives", "flume channels, parking_lot mutexes"],
+        stubbed: &["per-connection task remote()/RemoteLink::start replaced by a link actor performing the same buffer/channel operations", "MQTT codecs and sockets (not involved)", "clients: protocol-obeying models"],
+        assumptions: &[
+            "single-threaded interleaving at buffer/channel granularity is equivalent to the threaded broker (DESIGN.md 1.1)",
+            "release semantics: debug assertions off, overflow checks off",
+            "the reference broker model (spec.rs) and its matcher are trusted",
+        ],
+        expected_probes: &["takeover", "stale_disconnect_on_reused_slot"],
+    },
+    PropSpec {
     id: "C13",
     engine: "logsim",
     level: "exploration",
@@ -46,6 +115,10 @@ pub fn find(id: &str) -> Option<&'static PropSpec> {
 pub fn runner(id: &'static str, tier: Tier) -> Box<RunFn> {
     match id {
         "C13" => Box::new(move |ch, rep| engines::logsim::run(tier, ch, rep)),
+        "C01" => Box::new(move |ch, rep| engines::routersim::run(engines::routersim::P::C01, tier, ch, rep)),
+        "C03" => Box::new(move |ch, rep| engines::routersim::run(engines::routersim::P::C03, tier, ch, rep)),
+        "C06" => Box::new(move |ch, rep| engines::routersim::run(engines::routersim::P::C06, tier, ch, rep)),
+        "C09" => Box::new(move |ch, rep| engines::routersim::run(engines::routersim::P::C09, tier, ch, rep)),
         _ => panic!("no engine for {id}"),
     }
 }
